@@ -86,6 +86,47 @@ theorem mark_unmarked (ops : List SOp) (e : Entity) (he : e ∈ (world ops).allo
     have := ((inv_concrete hI).1 e0 _ h0).1
     omega
 
+/-- Final state of a run continued: `runFrom` composes. -/
+theorem runFrom_append_fst (x : SLWorld) (a b : List SOp) :
+    (SLWorld.runFrom x (a ++ b)).1 = (SLWorld.runFrom (SLWorld.runFrom x a).1 b).1 := by
+  induction a generalizing x with
+  | nil => rfl
+  | cons op a ih => simp only [List.cons_append, SLWorld.runFrom]; exact ih _
+
+theorem runFrom_marks (x : SLWorld) (js : List Nat) :
+    (SLWorld.runFrom x (js.map SOp.mark)).1 = js.foldl (fun y j => (y.step (.mark j)).1) x := by
+  induction js generalizing x with
+  | nil => rfl
+  | cons j js ih => simp only [List.map_cons, SLWorld.runFrom, List.foldl_cons]; exact ih _
+
+/-- **Lazy marking is an ordinary history.** A `maintain` that applies lazily queued markings (`maintainLazy`, the
+    model of `LazyBuilder::marked`; the driver replays `mark_lazy … maintain` with it) reaches the state of the history
+    `maintain, mark j₁, …, mark jₙ`. Every theorem of this file — uniqueness, the invariant, `mark_marked`: an entity
+    that got a marker between the queueing and the `maintain` keeps it — therefore covers lazily marked entities. -/
+theorem lazy_marking_is_a_history (ops : List SOp) (js : List Nat)
+    (hm : ((SLWorld.run ops).1.step .maintain).2 = .ok) :
+    ((SLWorld.run ops).1.maintainLazy js).1 = (SLWorld.run (ops ++ SOp.maintain :: js.map SOp.mark)).1 := by
+  unfold SLWorld.run at hm ⊢
+  rw [runFrom_append_fst]
+  generalize SLWorld.runFrom {} ops = st0 at hm ⊢
+  have h2 : (SLWorld.runFrom st0.1 (SOp.maintain :: js.map SOp.mark)).1 =
+      (SLWorld.runFrom (st0.1.step SOp.maintain).1 (js.map SOp.mark)).1 := by
+    simp only [SLWorld.runFrom]
+  rw [h2, runFrom_marks]
+  unfold SLWorld.maintainLazy
+  generalize hst : st0.1.step SOp.maintain = st at hm
+  obtain ⟨x', r⟩ := st
+  simp only at hm
+  subst hm
+  rfl
+
+/-- … in particular the markers stay unique after a `maintain` with any queued markings. -/
+theorem lazy_marking_keeps_markers_unique (ops : List SOp) (js : List Nat)
+    (hm : ((SLWorld.run ops).1.step .maintain).2 = .ok) :
+    (((SLWorld.run ops).1.maintainLazy js).1.w.joinMarked.map (·.2)).Nodup := by
+  rw [lazy_marking_is_a_history ops js hm]
+  exact markers_unique _
+
 /-- **C15, merge.** Deserialising arbitrary data into the world reached by any history succeeds
     and
     1. keeps every known marker id on the entity that carried it (update in place, no duplicate),
